@@ -346,7 +346,8 @@ static void do_search(const std::string &line, const J &in, FILE *out) {
             char m[512]; size_t mn = rtosc_message(m, sizeof m, "/path-search", "ss", loc.c_str(), needle.c_str());
             FlushBuf mb(mn); memcpy(mb.p, m, mn);
             size_t cap = 8192; FlushBuf rb(cap); memset(rb.p, 0xA5, cap); int h0 = vg_asan_hits;
-            size_t n = path_search(root->ports, (const char *)mb.p, 64, (char *)rb.p, cap, (path_search_opts)opt, wq);
+            size_t maxp = q.has("max") ? (size_t)q["max"].num() : 64;      // "the maximum number of child ports" (ports.h): exactly as many as there are, or plenty
+            size_t n = path_search(root->ports, (const char *)mb.p, maxp, (char *)rb.p, cap, (path_search_opts)opt, wq);
             w.obj().kbytes("loc", (const uint8_t *)loc.data(), loc.size()).kbytes("needle", (const uint8_t *)needle.data(), needle.size()).knum("opt", opt).kbool("with_query", wq)
              .knum("ret", (long long)n).kbytes("reply", rb.p, n <= cap ? n : 0).kbool("valid", n && n <= cap && rtosc_valid_message_p((const char *)rb.p, n)).knum("asan", vg_asan_hits - h0).end_obj();
         } });
